@@ -22,7 +22,7 @@ import (
 //
 // The reference is computed in 700-bit binary floating point: m * 2^k is exact there, the power of ten that brings it
 // into [1, 10) is built by squaring (about 60 roundings of relative error 2^-700 each), so the first 150 decimal
-// digits are right; the construction uses at most precision + 25 of them.
+// digits are right; the construction uses at most precision + 125 of them.
 
 const c12RefBits = 700
 
@@ -75,8 +75,8 @@ func c12DigitsOf(s *big.Float, n int) string {
 	return t[:n]
 }
 
-// c12Pow2Exact returns the exact value of m * 2^k cut after n digits (the sticky bit set: the expansions in question
-// never end that early), or ok=false when big.Float cannot hold it.
+// c12Pow2Exact returns the exact value of m * 2^k cut after n digits (n <= 125) with a sticky bit, or ok=false when
+// big.Float cannot hold it.
 func c12Pow2Exact(m *big.Int, k int64, n int) (ex model.X, ok bool) {
 	if m.Sign() <= 0 || k > math.MaxInt32-int64(m.BitLen())-8 || k < math.MinInt32+int64(m.BitLen())+8 {
 		return ex, false
@@ -88,7 +88,10 @@ func c12Pow2Exact(m *big.Int, k int64, n int) (ex model.X, ok bool) {
 	}
 	s, e10 := c12Scaled(v)
 	d := c12DigitsOf(s, n)
-	ex = model.X{Val: model.MkFinite(false, strings.TrimRight(d, "0"), e10+1), Sticky: true}
+	// (exact when everything the reference knows beyond the n digits is zero: the constructions stay at least 60
+	// digits short of that, so a value that close is the round number itself, e.g. 2^300 p-300)
+	all := c12DigitsOf(s, 185)
+	ex = model.X{Val: model.MkFinite(false, strings.TrimRight(d, "0"), e10+1), Sticky: strings.TrimRight(all[n:], "0") != ""}
 	if strings.TrimRight(d, "0") == "" {
 		return ex, false
 	}
@@ -122,6 +125,10 @@ func genC12Pow2Near(t *rapid.T) C12Case {
 		k = -k
 	}
 	closeness := rapid.IntRange(9, 21).Draw(t, "closeness")
+	if rapid.IntRange(0, 3).Draw(t, "closer") == 0 {
+		// beyond any fixed number of guard digits an implementation might use (38, 57, 76, ...)
+		closeness = rapid.IntRange(22, 100).Draw(t, "closeness2")
+	}
 	up := rapid.Bool().Draw(t, "side")
 	// q = 2^k scaled into [1, 10): 2^k = q * 10^e
 	two := new(big.Float).SetPrec(c12RefBits).SetInt64(1)
@@ -146,7 +153,7 @@ func genC12Pow2Near(t *rapid.T) C12Case {
 }
 
 // checkC12Pow2Near: the literal must be accepted (its value is far inside the range) and stored as one of the two
-// neighbours of the exact value; inside the zone of known finding F-43 the neighbour beyond the near number passes too.
+// neighbours of the exact value.
 func checkC12Pow2Near(c C12Case, o *h.Obs, got h.Snap, err error, wantPrec uint) *h.Fail {
 	body := strings.TrimPrefix(c.S, "-")
 	i := strings.IndexByte(body, 'p')
@@ -155,7 +162,7 @@ func checkC12Pow2Near(c C12Case, o *h.Obs, got h.Snap, err error, wantPrec uint)
 	if _, e := fmt.Sscan(body[i+1:], &k); e != nil || !ok {
 		return h.Failf("bad-case", "literal %q", c.S)
 	}
-	ex, ok := c12Pow2Exact(m, k, int(wantPrec)+c12ZoneDigits+8)
+	ex, ok := c12Pow2Exact(m, k, int(wantPrec)+125)
 	if !ok {
 		o.Label("pow2near:no-reference")
 		return nil
@@ -172,7 +179,7 @@ func checkC12Pow2Near(c C12Case, o *h.Obs, got h.Snap, err error, wantPrec uint)
 	}
 	o.NonTrivial()
 	tail := ex.Digits
-	for uint(len(tail)) < wantPrec+c12ZoneDigits+4 {
+	for uint(len(tail)) < wantPrec+120 {
 		tail += "0"
 	}
 	tail = tail[wantPrec:]
@@ -181,8 +188,14 @@ func checkC12Pow2Near(c C12Case, o *h.Obs, got h.Snap, err error, wantPrec uint)
 		n = n9
 	}
 	switch {
+	case n >= 38:
+		o.Label("pow2near:38-or-more-digits-from-a-representable-number")
+		if n >= 76 {
+			o.Label("pow2near:76-or-more-digits-from-a-representable-number")
+		}
+		fallthrough
 	case n >= c12ZoneDigits:
-		o.Label("pow2near:inside-F-43-zone")
+		o.Label("pow2near:16-or-more-digits-from-a-representable-number")
 	case n >= 8:
 		o.Labelf("pow2near:%d-digits-from-a-representable-number", n)
 	default:
